@@ -109,6 +109,17 @@ fn ros_agree_call(inp: &Value) -> Value {
 }
 
 pub fn run_ros2(ctx: &mut Ctx) {
+    {
+        // a fixed input that reproduces the listed finding F17 on every run: a burst of two, then two more after 2 ticks;
+        // the plain Curve's own continuation is not sub-additive (eta(3) = 5 > eta(1) + eta(2)) and steps at offset L = 2
+        let t = json!({"a": {"k": "curve", "d": [0, 2, 2]}, "c": {"k": "scalar", "c": 1}, "C": 1, "D": 12, "seg": 1, "last": 1});
+        let own = json!({"dm": {"k": "agg", "of": [{"k": "rbf", "a": t["a"], "c": {"k": "scalar", "c": 1}}]}});
+        let es = json!({"op": "ros2_es", "supply": {"k": "dedicated"}, "lim": 41, "own": own});
+        let fifo = json!({"policy": "fifo", "lim": 41, "tua": {"C": 0}, "others": [t], "B": 0});
+        if let Some(r) = crate::drivers::ros2::demand_rec(&own["dm"], 86, ctx.watchdog_ms) {
+            ctx.call("agree", json!({"family": "event_source_eq_fifo_on_dedicated", "calls": [es, fifo], "tab": r["sn"], "lim": 41}), ros_agree_call);
+        }
+    }
     let n = if ctx.thorough { 40000 } else { 4000 };
     let (tmax, limmax) = if ctx.thorough { (24, 150) } else { (10, 60) };
     for i in 0..n {
@@ -156,7 +167,12 @@ pub fn run_ros2(ctx: &mut Ctx) {
                 // event source = FIFO analysis on a dedicated processor
                 let es = json!({"op": "ros2_es", "supply": {"k": "dedicated"}, "lim": lim, "own": agg(&ts)});
                 let fifo = json!({"policy": "fifo", "lim": lim, "tua": {"C": 0}, "others": ts, "B": 0});
-                ctx.call("agree", json!({"family": "event_source_eq_fifo_on_dedicated", "calls": [es, fifo]}), ros_agree_call);
+                // the recorded request-bound table lets the specification say *where* the two analyses part ways
+                let tab = match crate::drivers::ros2::demand_rec(&agg(&ts)["dm"], 2 * lim + 4, ctx.watchdog_ms) {
+                    Some(r) => r["sn"].clone(),
+                    None => continue,
+                };
+                ctx.call("agree", json!({"family": "event_source_eq_fifo_on_dedicated", "calls": [es, fifo], "tab": tab, "lim": lim}), ros_agree_call);
                 continue;
             }
         };
